@@ -93,6 +93,26 @@ Theorem c04_enforce_closed : forall s s', enforce_tc_and_dag s = TOk s' ->
 Proof. exact enforce_closed. Qed.
 Print Assumptions c04_enforce_closed.
 
+(* PARTIAL (incremental layer): only the EDIT PHASE of the operations as coded (map update, stale-edge
+   stripping, removal of parent links) is related to the spec layer here: it fails with the same error,
+   or yields a store with the same direct parents as the spec edit, after which the code runs
+   `finish` (repair_tc on the touched set / enforce).  Missing for the full refinement
+   (i_op s o and s_op s o agree under Inv): that `repair` over the touched set recomputes exactly the
+   closure — compared by correspondence only. *)
+Theorem c04_inc_edit_parents_partial : forall s o,
+  match s_edit s o with
+  | TErr e => i_op s o = TErr e
+  | TOk s1 =>
+      match o with
+      | OFrom c _ => i_op s o = if c then recompute (graph_of s1) else enforce_tc_and_dag s1
+      | OAdd c _ => exists t, i_op s o = finish c true t s1
+      | OUpsert c _ => exists s2 t, i_op s o = finish c true t s2 /\ graph_of s2 = graph_of s1
+      | ORemove c _ => exists s2 t, i_op s o = finish c false t s2 /\ graph_of s2 = graph_of s1
+      end
+  end.
+Proof. exact inc_edit_parents. Qed.
+Print Assumptions c04_inc_edit_parents_partial.
+
 (* ---- non-vacuity: concrete histories ---- *)
 (* diamond 0 -> {1,2} -> 3 -> 4, then remove 1 (one of two paths): 3 and 4 stay ancestors of 0;
    then remove 2 (the only remaining path): nothing survives *)
